@@ -42,7 +42,7 @@ func cfgFor(prop, tier string) tierCfg {
 		if quick {
 			return tierCfg{pool: 360, scenarios: 420, raceFrac: 0.3, profile: Profile{MaxLen: 110, MaxRSEcc: 68, ScaleMax: 120}, maxOps: 4, maxW: []int{2, 2, 3, 4, 4, 8, 16, 32}, budget: 4 * time.Minute, shrinkEvals: 120, boundaryGroups: 10}
 		}
-		return tierCfg{pool: 3000, scenarios: 10000, raceFrac: 0.3, profile: Profile{MaxLen: 700, MaxRSEcc: 200, ScaleMax: 250, HeavyTail: true}, maxOps: 6, maxW: []int{2, 2, 3, 4, 8, 8, 16, 32, 64}, budget: 60 * time.Minute, shrinkEvals: 300, boundaryGroups: 40}
+		return tierCfg{pool: 3000, scenarios: 10000, raceFrac: 0.3, profile: Profile{MaxLen: 700, MaxRSEcc: 200, ScaleMax: 250, HeavyTail: true}, maxOps: 6, maxW: []int{2, 2, 3, 4, 8, 8, 16, 32, 64, 96, 128}, budget: 60 * time.Minute, shrinkEvals: 300, boundaryGroups: 40}
 	default: // C18
 		if quick {
 			return tierCfg{scenarios: 300, raceFrac: 0.2, maxOps: 80, maxW: []int{1, 1, 1, 2, 3}, maxBits: 120_000, budget: 3 * time.Minute, shrinkEvals: 150}
@@ -320,6 +320,9 @@ func genC15(seed uint64, cfg tierCfg) ([]*Scenario, []Call) {
 			if r.chance(0.4) {
 				sc.Segments[i].Procs = []int{1, 3, 4, 8, 16}[r.intn(5)]
 			}
+			if r.chance(0.3) {
+				sc.Segments[i].MidJumpPPM = []int{200, 2000, 20000}[r.intn(3)]
+			}
 		}
 	}
 	// marathons: very long histories of cheap calls over a small set (counters that wrap, free lists and
@@ -493,6 +496,9 @@ func genC16(seed uint64, cfg tierCfg) ([]*Scenario, []Call) {
 		if r.chance(0.2) {
 			seg.GCPct = []int{5, 25, 100}[r.intn(3)]
 		}
+		if r.chance(0.3) {
+			seg.MidJumpPPM = []int{200, 2000, 20000}[r.intn(3)]
+		}
 		if r.chance(0.4) {
 			seg.Procs = []int{1, 3, 4, 8, 16}[r.intn(5)]
 		}
@@ -597,6 +603,9 @@ func genC18At(seed uint64, cfg tierCfg, id int) *Scenario {
 			ph = append(ph, prog)
 		}
 		seg.Phases = [][][]Call{ph}
+		if r.chance(0.3) {
+			seg.MidJumpPPM = []int{500, 5000, 50000}[r.intn(3)]
+		}
 		if r.chance(0.3) && w > 0 {
 			seg.Stalls = append(seg.Stalls, Stall{G: r.rangeIn(1, w+6), From: r.intn(2000), Len: r.rangeIn(10, 3000)})
 		}
